@@ -6,6 +6,7 @@ from mc import bind  # noqa: F401
 from mc import alphabet as al
 from mc import maps
 from mc import mspace as ms
+from mc import histories as hs
 from mc import refgeom as rg
 
 ID = "C17"
@@ -21,7 +22,7 @@ MANIFEST = {
     "technique": "bounded-exhaustive enumeration of degenerate inputs x configurations; totality and pairs-vs-triples differential oracle",
 }
 MANIFEST["text"] += " " + (
-    'Added after the seeding waves: triples with datetime time stamps, the named graphs with small noise (internal guards must not fire), non-emitting noise smaller than the emitting one, and the SQLite backend with small numeric time stamps and a finite initial radius.')
+    'Added after the seeding waves: triples with datetime time stamps, the named graphs with small noise (internal guards must not fire), non-emitting noise smaller than the emitting one, and the SQLite backend with small numeric time stamps and a finite initial radius; the pairs-vs-triples comparison also after an extension (match prefix, match(all, expand=True)), a re-run and a widening on the configurations with a width or a cut-off.')
 BUDGET = {"quick": 420, "thorough": 3000}
 RULE = ("states = (input, configuration, metric) pairs of runs, transitions = matcher executions, traces validated = pairs-vs-triples "
         "comparisons; non-trivial = the trace contains an observation exactly on a node/edge, a repeat, or the map has a zero-length "
@@ -158,6 +159,31 @@ def run_case(case):
             mini = {k: case[k] for k in ("metric", "pos", "n", "mask", "special", "backend") if k in case}
             mini.update({"trace": trace, "cfg": c})
             where = f"{case['metric']} {al.describe_graph(g0)} trace {trace} cfg {c}"
+            # incremental matching is matching too: the same pairs-vs-triples comparison after an extension and after a widening
+            # (on the configurations with a width or a cut-off; the trace is kept by the matcher between the calls)
+            if len(tr) >= 2 and (c.get("width") or c.get("max_dist")) and c["obs_noise"] in (1.0, 3.0):
+                hists = [[["M", 1], ["X", len(tr)]], [["M", len(tr)], ["X", len(tr)]]]
+                if c.get("width"):
+                    hists.append([["M", len(tr)], ["W", 3]])
+                for hist in hists:
+                    hgot = []
+                    for t in forms[:2]:
+                        m = ms.make_matcher(mp, cc)
+                        r = None
+                        for op in hist:
+                            r = hs.apply_op(m, t, op)
+                            res["n"] += 1
+                            res["tr"] += 1
+                            if isinstance(r, Exception):
+                                break
+                        if isinstance(r, Exception):
+                            hgot.append(("EXC", repr(r)))
+                        else:
+                            hgot.append(ms.canon(m, r, nd=12))
+                    res["tv"] += 1
+                    if hgot[0] != hgot[1]:
+                        res["v"].append({"msg": f"{where} history {hist}: with (lat, lon, time) triples {hgot[1][:3]}, with pairs {hgot[0][:3]}",
+                                         "case": dict(mini, hist=hist)})
             for form, g in zip(("pairs", "triples with a float time", "triples with a datetime time"), got):
                 if g[0] in ("EXC", "BAD"):
                     res["v"].append({"msg": f"{where} ({form}): match " + ("raised " if g[0] == "EXC" else "returned ") + g[1][:300], "case": mini})
